@@ -8,7 +8,7 @@ from .. import grammar, regex
 
 CLAIM = {
     "text": "Read-boundary independence decided through the hypotheses of a fold theorem, each checked on MIR for both byte decoders: single "
-            "fill_buf, in-order iteration of its slice, exactly one step per byte fed with that byte, a counter incremented once per byte before "
+            "fill_buf, in-order iteration of its slice, exactly one step per byte fed with that byte, a counter incremented once per byte (or set to the enumerate() index + 1) before "
             "the step, consume(count) on every exit, re-scheduled bytes drained first through the same step, no clock/env/random/IO input in the "
             "step's reach. Structural clauses of longest-match: LIFO re-scheduling (pop / drain(size..).rev() / push+pop pairing), minimum-tag "
             "selection with Item < Matcher, and the set of overlapping grammars (regular-language intersection) equal to the documented one. "
@@ -182,8 +182,12 @@ def over_fill_buf(term):
     return re.match(FILL_BUF_SLICE, base) is not None, enum
 
 
-def is_increment_of(e, x):
-    return e in ("Add(%s, 1)" % x, "Add(1, %s)" % x)
+def is_increment_of(e, x, index_rx=None):
+    """`x + 1` (either operand order); with index_rx (the 0-based position of the current byte in an `enumerate()`d whole-slice traversal) also
+    `index + 1`: after the k-th byte both make the counter equal to k + 1"""
+    if e in ("Add(%s, 1)" % x, "Add(1, %s)" % x):
+        return True
+    return index_rx is not None and re.fullmatch(r"Add\((?:%s), 1\)|Add\(1, (?:%s)\)" % (index_rx, index_rx), e) is not None
 
 
 def step_sites(body, step_rx, blocks=None):
@@ -442,6 +446,7 @@ def run(ctx):
             sw, some_t, none_t = se
             rb, rcfg, entry, exits, region = b, cfg, some_t, [head] + cfg.returns, loops[head]
             elem = r"(?:\w+::)*next\(%s\)@Some\.0%s" % (re.escape(feed["iter"]), r"\.1" if feed["enum"] else "")
+            index_rx = r"(?:\w+::)*next\(%s\)@Some\.0\.0" % re.escape(feed["iter"]) if feed["enum"] else None
             feed_bbs = None       # filled below with the step blocks
         else:
             rb = inlined_keep(prog, feed["closure"], step_rx)
@@ -451,6 +456,7 @@ def run(ctx):
             rcfg = rb.cfg()
             entry, exits, region = 0, rcfg.returns, set(range(len(rb.blocks)))
             elem = r"arg%d%s" % (feed["elem"], r"\.1" if feed["enum"] else "")
+            index_rx = r"arg%d\.0" % feed["elem"] if feed["enum"] else None
             sw = some_t = None
             feed_bbs = [feed["bb"]]
         # ---- step calls
@@ -495,7 +501,7 @@ def run(ctx):
                         inits.append(i)
                     else:
                         e = expr(b, rv["a"]) if rv["k"] == "use" else rv["k"]
-                        if feed["form"] == "loop" and (is_increment_of(e, "var:%s" % nm) or is_increment_of(e, "_%d" % cl)):
+                        if feed["form"] == "loop" and (is_increment_of(e, "var:%s" % nm, index_rx) or is_increment_of(e, "_%d" % cl)):
                             incs.append(i)
                         else:
                             okc = False
@@ -510,7 +516,7 @@ def run(ctx):
                         if place_expr(rb, s["place"]) == cx and s["place"]["p"]:
                             rv = s["rv"]
                             e = expr(rb, rv["a"]) if rv["k"] == "use" else rv["k"]
-                            if is_increment_of(e, cx):
+                            if is_increment_of(e, cx, index_rx):
                                 incs.append(i)
                             else:
                                 okc = False
